@@ -12,8 +12,9 @@ for d in sorted(glob.glob('/verif/seeded/*/')):
     caught=[f"{k} ({', '.join(v['signatures'][:2])})" for k,v in sorted(c.items()) if v['exit']==1]
     missed=[k for k,v in sorted(c.items()) if v['exit']==0]
     other=[f"{k}: exit {v['exit']}" for k,v in sorted(c.items()) if v['exit'] not in (0,1)]
+    note=open(d+'note.txt').read().strip() if os.path.exists(d+'note.txt') else ''
     def cell(t): return re.sub(r'\s+',' ',str(t)).replace('|','/')
-    rows.append(f"| {id}{'' if confirmed else ' (unconfirmed)'} | {cell(m.get('summary',''))[:260]} | {cell(m.get('needs_to_manifest',''))[:260]} | {'; '.join(caught) or 'none'}{' — silent: '+', '.join(missed) if missed else ''}{' — '+'; '.join(other) if other else ''} |")
+    rows.append(f"| {id}{'' if confirmed else ' (unconfirmed)'} | {cell(m.get('summary',''))[:260]} | {cell(m.get('needs_to_manifest',''))[:260]} | {'; '.join(caught) or 'none'}{' — silent: '+', '.join(missed) if missed else ''}{' — '+'; '.join(other) if other else ''}{' — NOTE: '+cell(note) if note else ''} |")
 p='/verif/DESIGN.md'
 s=open(p).read()
 b='<!-- seeded-table-begin -->\n'; e='<!-- seeded-table-end -->\n'
